@@ -768,8 +768,33 @@ def ma(ctx):
     c_pairs = {(m, r) for (m, r, _c) in tc}
     ok1 = ('len', 'concatenated_records') in s_pairs and ('capacity', 'concatenated_records') in c_pairs
     ok2 = ('len', 'record_metas') in s_pairs and ('capacity', 'record_metas') in c_pairs
-    szof_s = any('size_of' in m for (m, r, _c) in ts)
-    szof_c = any('size_of' in m for (m, r, _c) in tc)
+    def meta_factor(b, tlist):
+        """what the record_metas len()/capacity() term is multiplied by: ('size_of', callee name) | ('const', value)"""
+        for (m, r, cs) in tlist:
+            if r != 'record_metas' or m not in ('len', 'capacity') or cs.dest_local() is None:
+                continue
+            dl = cs.dest_local()
+            for bi, blk in enumerate(b.blocks):
+                if not b.live[bi]:
+                    continue
+                for st in blk['stmts']:
+                    if st['k'] == 'assign' and st['rv']['k'] == 'binop' and st['rv']['op'].startswith('Mul'):
+                        a_, b_ = st['rv']['a'], st['rv']['b']
+                        for (x, y) in ((a_, b_), (b_, a_)):
+                            xl = op_local(x)
+                            if xl is not None and (xl == dl or any(o[0] == 'call' and o[1] is cs for o in b.trace_local(xl))):
+                                if op_const_bits(y) is not None:
+                                    return ('const', op_const_bits(y))
+                                yl = op_local(y)
+                                for o in (b.trace_local(yl) if yl is not None else []):
+                                    if o[0] == 'call' and 'size_of' in o[1].name:
+                                        return ('size_of', o[1].name)
+                                    if o[0] == 'const' and op_const_bits(o[2]) is not None:
+                                        return ('const', op_const_bits(o[2]))
+        return None
+    fs_, fc_ = meta_factor(qsz[0], ts), meta_factor(qcap[0], tc)
+    szof_s = fs_ is not None and (fs_[0] == 'size_of' or fs_[1] > 0)
+    szof_c = fc_ is not None and fs_ == fc_
     ctx.check(ok1, 'payload-pair', qsz[0].span, 'size uses concatenated_records.len(), capacity uses its capacity()', 'payload bytes are not accounted as len() in size and capacity() in capacity (size:%s capacity:%s)' % (sorted(s_pairs), sorted(c_pairs)))
     ctx.check(ok2 and szof_s and szof_c, 'metas-pair', qsz[0].span, 'size uses record_metas.len() * size_of, capacity uses record_metas.capacity() * size_of', 'record metas are not accounted as len()*size_of in size and capacity()*size_of in capacity')
     # every term of size() has its twin in capacity() and vice versa (len <-> capacity, same receiver)
@@ -786,21 +811,43 @@ def ma(ctx):
         return
     b = qs[0]
     fl = flow_of(b)
-    cl = {}
-    for (p, fj) in b.fn_values:
-        if fj.get('node') in ctx.f.bodies:
-            cb = ctx.f.bodies[fj['node']]
-            names = set()
-            for cs in cb.calls:
-                names.add(method_name(cs.name))
-                names.add(cs.path)
-                if cs.name.startswith('std::string::String::'):
-                    names.add('String::' + method_name(cs.name))
-            cl[fj['node']] = names
-    used_cl = [n for n, names in cl.items() if 'mem::queue::MemQueue::size' in names]
-    cap_cl = [n for n, names in cl.items() if 'mem::queue::MemQueue::capacity' in names]
-    ok_u = bool(used_cl) and all('String::len' in cl[n] and 'String::capacity' not in cl[n] and 'mem::queue::MemQueue::capacity' not in cl[n] for n in used_cl)
-    ok_c = bool(cap_cl) and all('String::capacity' in cl[n] for n in cap_cl)
+
+    def call_terms(body, back_nodes, flb):
+        out = set()
+        for cs in body.calls:
+            if any(x in back_nodes for x in flb.call_result_nodes(cs)) or cs.dest_local() == 0:
+                if cs.name.startswith('std::string::String::') or re.search(r'^core::str::<impl str>::', cs.name):
+                    out.add('String::' + method_name(cs.name))
+                elif cs.path.startswith('mem::queue::MemQueue::'):
+                    out.add(cs.path)
+        return out
+
+    def terms_of(op):
+        """accounting terms that flow into operand `op` of MemQueues::size: calls made here, and calls made by the
+        closures whose value (a map/fold adaptor argument) flows into it"""
+        back = fl.backward(set(fl.op_nodes(op)))
+        out = call_terms(b, back, fl)
+        for (pp, fj) in b.fn_values:
+            node = fj.get('node')
+            if node not in ctx.f.bodies:
+                continue
+            st = b.stmt_at(pp)
+            used_here = st is not None and st['k'] == 'assign' and ('l', st['place']['l']) in back
+            if not used_here:
+                t = b.term_at(pp)
+                used_here = t is not None and t['k'] == 'call' and b.call_at.get(pp) is not None and any(x in back for x in fl.call_result_nodes(b.call_at[pp]))
+            if used_here:
+                cb = ctx.f.bodies[node]
+                flc = flow_of(cb)
+                out |= call_terms(cb, flc.backward({('l', 0)}), flc)
+        return out
+    ok_u = ok_c = ok_t = False
+    for (p, kind, data) in b.defs.get(0, []):
+        if kind == 'assign' and data['rv']['k'] == 'agg' and data['rv'].get('agg') == 'tuple' and len(data['rv']['ops']) == 2:
+            t0, t1 = terms_of(data['rv']['ops'][0]), terms_of(data['rv']['ops'][1])
+            ok_u = {'String::len', 'mem::queue::MemQueue::size'} <= t0 and not ({'String::capacity', 'mem::queue::MemQueue::capacity'} & t0)
+            ok_c = {'String::capacity', 'mem::queue::MemQueue::capacity'} <= t1 and not ({'String::len', 'mem::queue::MemQueue::size'} & t1)
+            ok_t = ok_u and ok_c
     ctx.check(ok_u and ok_c, 'name-pair', b.span, 'used adds name.len() + queue.size(); allocated adds name.capacity() + queue.capacity()', 'queue names are not accounted as len() in used and capacity() in allocated')
     # tuple order and mapping in resource_usage
     ru = [x for x in root_bodies(ctx) if x.ret_ty == 'ResourceUsage']
@@ -820,22 +867,6 @@ def ma(ctx):
                 t1 = flr.forward({('lf', dl, '1')})
                 u, a_ = agg_field_op(agg, 'memory_used_bytes'), agg_field_op(agg, 'memory_allocated_bytes')
                 okm = u is not None and a_ is not None and flr.op_tainted(u, t0) and not flr.op_tainted(u, t1) and flr.op_tainted(a_, t1) and not flr.op_tainted(a_, t0)
-    # which tuple component is which inside MemQueues::size
-    ok_t = False
-    for (p, kind, data) in b.defs.get(0, []):
-        if kind == 'assign' and data['rv']['k'] == 'agg' and data['rv'].get('agg') == 'tuple' and len(data['rv']['ops']) == 2:
-            o0, o1 = data['rv']['ops']
-            # each flows from the sum() fed by the respective closure
-            def fed_by(op, closure_nodes):
-                back = flr_b.backward(set(flr_b.op_nodes(op)))
-                for (pp, fj) in b.fn_values:
-                    if fj.get('node') in closure_nodes:
-                        st = b.stmt_at(pp)
-                        if st is not None and st['k'] == 'assign' and ('l', st['place']['l']) in back:
-                            return True
-                return False
-            flr_b = fl
-            ok_t = fed_by(o0, used_cl) and fed_by(o1, cap_cl) and not fed_by(o0, cap_cl) and not fed_by(o1, used_cl)
     ctx.check(okm and ok_t, 'tuple-mapping', r.span, '(used, allocated) -> memory_used_bytes, memory_allocated_bytes', 'used and allocated figures are swapped or mixed between MemQueues::size and resource_usage')
 
 
